@@ -3002,7 +3002,6 @@ private:
             res.term_idx = uninitialized16;
 
         ps.current_term_idx = res.term_idx;
-        ps.current_end_it = ps.current_it + res.len;
 
         if (ps.current_term_idx == uninitialized16)
         {
@@ -3011,6 +3010,7 @@ private:
         }
         else
         {
+            ps.current_end_it = ps.current_it + res.len;
             trace_recognized_term(ps);
         }
 
